@@ -15,11 +15,17 @@ var (
 	c13Nsec   int64
 	c13Reads  []time.Time
 	c13WholeSeconds bool
+	c13FixedClock   bool
 	c13Timers []time.Duration
 )
 
 //verif:stub time.Now files=backoff.go,client.go
 func c13Now() time.Time {
+	if c13FixedClock {
+		t := time.Unix(2000000000, 0)
+		c13Reads = append(c13Reads, t)
+		return t
+	}
 	// the next reading is an arbitrary instant not before the previous one
 	sec := vI64("now.sec")
 	nsec := int64(vU32("now.nsec") & 0x3fffffff)
@@ -64,6 +70,7 @@ func c13Start() {
 	c13Sec, c13Nsec = sec, nsec
 	c13Reads, c13Timers = nil, nil
 	c13WholeSeconds = false
+	c13FixedClock = false
 }
 
 func c13Instant(name string) time.Time {
